@@ -42,13 +42,25 @@ def effective(cfg, suite, bench, key, default):
 
 def gen_scenario(rng, quick, opts=None):
     cfg = dp.gen_config(rng, opts)
-    n_sessions = rng.randint(1, 3)
+    aged = rng.random() < 0.2
+    if aged:
+        # data files of different age: several files, the first session is interrupted early, so that a
+        # later session appends to files that exist and creates the others
+        for _ in range(40):
+            if len(set(dp.exp_file(cfg, x) for x in cfg['experiments'])) >= 2:
+                break
+            cfg = dp.gen_config(rng, opts)
+    n_sessions = rng.randint(2, 3) if aged else rng.randint(1, 3)
     specs = []
     for _ in range(n_sessions):
         sched = rng.choice(['batch', 'round-robin', 'random'])
         specs.append({'sched': sched, 'choices': [rng.randint(0, 50) for _ in range(80)] if sched == 'random' else [],
                       'stop': None})
-    if rng.random() < 0.25:
+    if aged:
+        specs[0]['stop'] = rng.randint(1, 3)
+        if n_sessions == 3 and rng.random() < 0.5:
+            specs[1]['stop'] = rng.randint(1, 3)
+    elif rng.random() < 0.25:
         specs[0]['stop'] = rng.randint(1, 6)
     for sp in specs[1:]:          # a later session started with -c: discard what the earlier ones recorded
         if rng.random() < 0.2:
@@ -70,7 +82,14 @@ def run_scenario(ck, scen, tag):
         ck.count('scenario:rejected')
         return None
     rng = random.Random(scen['seed'])
+    given = bool(scen.get('outputs'))
     outputs = scen.get('outputs') or dp.gen_outputs(rng, probe)
+    if scen.get('dead_files') is not None and not given:
+        # no invocation of the runs recorded in these files ever succeeds: the files are never created,
+        # while the other files of the same sessions fill up
+        for ri, r in enumerate(probe.runs):
+            if set(r['files']) <= set(scen['dead_files']):
+                outputs[ri] = [None] * len(outputs[ri])
     build_ok = scen.get('build_ok')
     if build_ok is None:
         build_ok = [rng.random() < 0.85 for _ in probe.builds]
@@ -239,6 +258,10 @@ def flush_oracle(ck, inp, probe, outputs, ob, profile_files):
                     expected += sum(len(ms) for ms in o)
 
 
+def start_times(text):
+    return [l[len('# Execution Start: '):] for l in text.split('\n') if l.startswith('# Execution Start: ')]
+
+
 def oracle(ck, inp, probe, outputs, ob, profile_files):
     flush_oracle(ck, inp, probe, outputs, ob, profile_files)
     cfg = inp['cfg']
@@ -282,6 +305,30 @@ def oracle(ck, inp, probe, outputs, ob, profile_files):
                 ck.oracle_fail('session_block_first', inp, {'file': fname, 'first': first}, sig)
             if sum(1 for l in new.split('\n') if l.startswith('#!')) != 1:
                 ck.oracle_fail('session_block_once', inp, {'file': fname}, sig)
+        # the start time in a session block is the data file's: the one of the file's first block for a file
+        # that existed, the time of this session for a file that this session created
+        st_before = start_times(before)
+        st_new = start_times(new)
+        if st_new and st_before and any(t != st_before[0] for t in st_new):
+            ck.oracle_fail('start_time_is_the_files', inp,
+                           {'file': fname, 'first_block': st_before[0], 'this_session': st_new,
+                            'other_files': {probe.files[j]: start_times(ob.files[j])[:3]
+                                            for j in range(len(probe.files)) if j != fi}},
+                           dict(sig, file='existing'))
+        elif st_new and not st_before and getattr(ob, 'launched_at', None) is not None:
+            import datetime
+            try:
+                ts = [datetime.datetime.fromisoformat(t) for t in st_new]
+                ok = all(ob.launched_at <= t <= ob.returned_at for t in ts)
+            except ValueError:
+                ok = False
+            if not ok:
+                ck.oracle_fail('start_time_is_the_files', inp,
+                               {'file': fname, 'this_session': st_new,
+                                'session_ran': [ob.launched_at.isoformat(), ob.returned_at.isoformat()],
+                                'other_files': {probe.files[j]: start_times(ob.files[j])[:3]
+                                                for j in range(len(probe.files)) if j != fi}},
+                               dict(sig, file='created'))
         # a benchmark / run is described once per file: no metadata record repeats an earlier one
         seen_b, seen_r = {}, {}
         for line in after.split('\n'):
@@ -620,7 +667,10 @@ def run(ck):
                'default / shared / separate / mixed; runs contained in several experiments; 0-3 extra criteria; 1-5 '
                'data points per invocation; warm-up 0-3; builds; failing invocations; batch / round-robin / random '
                'scheduler; some first sessions interrupted); non-trivial = a history with at least one process '
-               'start, distinct by configuration+history; plus repository URLs with/without user, password, port')
+               'start, distinct by configuration+history; a fifth of the histories over data files of different age '
+               '(several files, first session interrupted after 1-3 starts); plus repository URLs with/without user, '
+               'password, port; plus sessions selecting one experiment by name, with and without -c, after a session '
+               'over all experiments')
     ck.assumptions = ['JSON of metadata records is compared through json.loads (CPython json is trusted)',
                       'the fake harness prints what the RebenchLog adapter documents; adapters are C05/C12']
     n = 150 if quick else 3000
@@ -644,10 +694,95 @@ def run(ck):
         compare_and_judge(ck, items)
     check_urls(ck, 150 if quick else 3000)
     parallel_slice(ck, 8 if quick else 120)
+    selection_slice(ck, 25 if quick else 400)
+
+
+def gen_selection(rng):
+    cfg = None
+    for _ in range(80):
+        c = dp.gen_config(rng, {'profile': False})
+        if len(c['experiments']) >= 2 and len(set(dp.exp_file(c, x) for x in c['experiments'])) >= 2:
+            cfg = c
+            break
+    if cfg is None:
+        return None
+    return {'selection': rng.choice(sorted(cfg['experiments'])), 'cfg': cfg, 'seed': rng.randint(0, 10 ** 9),
+            'clean': rng.random() < 0.6, 'first_stop': rng.choice([None, None, rng.randint(2, 8)]),
+            'scheds': [rng.choice(['batch', 'round-robin']) for _ in range(2)]}
+
+
+def run_selection(ck, scen, tag):
+    """Sessions that select ONE experiment by name (`rebench [-c] conf X1`) in a configuration whose experiments
+    record into different files, after a session over all experiments.  The session is about the selected
+    experiment only: the data files of the others keep their bytes (also with -c), nothing is appended to
+    them, no run outside the selection is started; for the selected experiment's file the usual clauses hold."""
+    import copy
+    import random
+    cfg, xname = scen['cfg'], scen['selection']
+    wd = os.path.join(ck.scratch, tag)
+    os.makedirs(wd)
+    drive.write_config(wd, cfg)
+    try:
+        probe = dp.Probe(wd, cfg)
+        sub = dp.Probe(wd, cfg, [xname])
+    except ValueError:
+        ck.count('scenario:rejected')
+        return
+    rng = random.Random(scen['seed'])
+    sel_cmds = set(r['cmd'] for r in sub.runs)
+    sel_file = probe.files.index(dp.exp_file(cfg, xname))
+    view = copy.copy(probe)     # the run table as the selecting session sees it
+    view.runs = [dict(r, files=[sel_file] if r['cmd'] in sel_cmds else []) for r in probe.runs]
+    raw = dp.build_raw(rng, probe, dp.gen_outputs(rng, probe))
+    probe.raw, probe.faulty = raw, False
+    view.raw, view.faulty = raw, False
+    outputs = dp.effective_outputs(probe, raw, False)
+    build_ok = [True] * len(probe.builds)
+    inp = dict(scen, selection_slice=True, files=probe.files, selected_file=probe.files[sel_file])
+    ob1 = dp.run_real_session(wd, probe, ['-s', scen['scheds'][0]],
+                              dp.make_script(probe, outputs, build_ok, stop=scen.get('first_stop'), raw=raw))
+    ob1.before = [''] * len(probe.files)
+    ck.impl_traces += 1
+    oracle(ck, dict(inp, session=0), probe, outputs, ob1, set())
+    ob2 = dp.run_real_session(wd, probe, ['-s', scen['scheds'][1]] + (['-c'] if scen['clean'] else []),
+                              dp.make_script(probe, outputs, build_ok, raw=raw), selection=[xname])
+    ck.impl_traces += 1
+    ob2.before = ['' if (scen['clean'] and fi == sel_file) else ob1.files[fi] for fi in range(len(probe.files))]
+    ck.count('selection:%s,%s' % ('clean' if scen['clean'] else 'plain',
+                                  'others-have-data' if any(ob1.files[fi] for fi in range(len(probe.files))
+                                                            if fi != sel_file) else 'others-empty'))
+    ck.case(json.dumps(['selection', cfg, xname, scen['clean'], scen.get('first_stop')], sort_keys=True, default=str)
+            if ob1.starts else None)
+    sig = {'selection': 'one-experiment', 'clean': scen['clean']}
+    if ob2.crash or ob2.status not in ('ok', 'failed'):
+        ck.oracle_fail('selection_no_crash', dict(inp, session=1), {'status': ob2.status, 'crash': ob2.crash}, sig)
+        return
+    for fi, fname in enumerate(probe.files):
+        if fi != sel_file and ob2.files[fi] != ob1.files[fi]:
+            a, b = ob1.files[fi], ob2.files[fi]
+            ck.oracle_fail('unselected_file_untouched', dict(inp, session=1),
+                           {'file': fname, 'bytes_before': len(a), 'bytes_after': len(b),
+                            'kind': 'emptied' if not b else 'appended' if b.startswith(a) else 'rewritten',
+                            'tail_after': b[-200:]},
+                           dict(sig, kind='emptied' if not b else 'appended' if b.startswith(a) else 'rewritten'))
+    outside = [s for s in ob2.starts if s[0] == 'r' and probe.runs[s[1]]['cmd'] not in sel_cmds]
+    if outside:
+        ck.oracle_fail('selected_runs_only', dict(inp, session=1), {'started_outside_selection': outside[:5]}, sig)
+    oracle(ck, dict(inp, session=1), view, outputs, ob2, set())
+
+
+def selection_slice(ck, n):
+    for k in range(n):
+        scen = gen_selection(ck.rng)
+        if scen:
+            run_selection(ck, scen, 'sel%d' % k)
 
 
 def replay(ck, data):
     inp = data['input']
+    if inp.get('selection_slice'):
+        run_selection(ck, {k: inp[k] for k in ('selection', 'cfg', 'seed', 'clean', 'first_stop', 'scheds')}, 'replay')
+        return
     if inp.get('parallel'):
         ck.notes.append('parallel replays re-run the slice from the seed')
         parallel_slice(ck, 8)
